@@ -11,5 +11,5 @@ CONSTANTS
   Chars = {97, 98}
   MaxLen = 2
   TypeNames = {"u8", "str", "pair_str_str", "vec_u8", "vec_vec_u8", "vec_unit", "vec_str", "opt_u8", "opt_opt_u8", "pair_opt_u8_vec_u8", "res_u8_str", "set_u8", "set_set_u8", "set_vec_u8", "vec_set_u8", "map_u8_u8", "map_u8_set_u8", "map_str_u8", "bmap_u8_vec_u8", "heap_u8", "pair_set_u8_set_u8", "enum_e", "pair_enum_e_u8"}
-INVARIANTS TypeOK HistoryFree Discriminating PrefixFree
+INVARIANTS TypeOK HistoryFree Discriminating PrefixFree LenCode
 CHECK_DEADLOCK FALSE
